@@ -54,7 +54,7 @@ FILTERS = {
     "Complementary/MARG": ("gam", lambda F, g, a, m, d: F.Complementary(g, a, m), 300, 600, 1.0 * DEG, []),
 }
 ROUTES = list(FILTERS)
-REGIONS = {"window:interior": 2000, "window:first-sample": 200, "burst:long": 16, "burst:repeated": 16}
+REGIONS = {"window:interior": 2000, "window:first-sample": 200, "burst:long": 16, "burst:repeated": 16, "short": 60}
 THOROUGH_QUOTA_MULT = 1
 PROBES = [("ahrs.filters.madgwick", "Madgwick.updateIMU"), ("ahrs.filters.madgwick", "Madgwick.updateMARG"), ("ahrs.filters.mahony", "Mahony.updateIMU"),
           ("ahrs.filters.mahony", "Mahony.updateMARG"), ("ahrs.filters.ekf", "EKF.update"), ("ahrs.filters.ukf", "UKF.update"),
@@ -108,6 +108,20 @@ def generate(rng, tier, shard, nshards):
             mask = np.zeros(n, bool)
             mask[st:st + ln] = True
             yield Case(name, "window:first-sample" if st == 0 else "window:interior", g=g, a=a, m=m, dip=dip, sensors=sub, mask=mask)
+    # the shortest recordings: one, two or three samples, the dropout on the first (or every) sample - the constructor's initial attitude comes
+    # from sample 0 and nothing else may be there to correct it
+    for name, (sensors, _, K, K1, tol, _) in FILTERS.items():
+        fs = sensors.replace("g", "")
+        subs = ["".join(s) for kk in range(1, len(fs) + 1) for s in itertools.combinations(fs, kk)]
+        for sub in subs:
+            for n, upto in ((1, 1), (2, 1), (2, 2), (3, 2)):
+                k += 1
+                if k % nshards != shard:
+                    continue
+                g, a, m, dip = trajectory(rng, n)
+                mask = np.zeros(n, bool)
+                mask[:upto] = True
+                yield Case(name, "short", g=g, a=a, m=m, dip=dip, sensors=sub, mask=mask)
     for name, (sensors, _, K, K1, tol, _) in FILTERS.items():
         reps = 2 if tier == "quick" else gens.reps(12, tier)
         sensors = sensors.replace("g", "")      # long bursts: accelerometer / magnetometer only (a null rate for 0.5 s is a 15 deg attitude error, not a dropout)
